@@ -29,7 +29,7 @@ class Unit:
     def __init__(self, name, props, tu, roots, target, contracts, harness=None, replace=(), stops=(), unwind=None,
                  defines=(), quick_defines=(), thorough_defines=(), tiers=("quick", "thorough"), replay=None,
                  kind="proof", bound_note="", timeout=None, extra_cbmc=(), loop_contracts=False, trusted=(),
-                 note="", mutants=(), solver=None, object_bits=None, no_canary=False, known=(), spec_target=False, unwindset=(), quick_unwind=None, mem_gb=None, quick_unwindset=(), thorough_object_bits=None, thorough_timeout=None):
+                 note="", mutants=(), solver=None, object_bits=None, no_canary=False, known=(), spec_target=False, unwindset=(), quick_unwind=None, mem_gb=None, quick_unwindset=(), thorough_object_bits=None, thorough_timeout=None, dfcc=True):
         self.name = name
         self.props = list(props)
         self.tu = tu
@@ -57,6 +57,7 @@ class Unit:
         self.object_bits = object_bits
         self.thorough_object_bits = thorough_object_bits
         self.thorough_timeout = thorough_timeout
+        self.dfcc = dfcc        # False: the harness assumes the precondition and asserts the postcondition itself (no frame check)
         self.no_canary = no_canary
         self.known = list(known)
         self.unwindset = list(unwindset)    # e.g. ['verif_memset.0:66']
@@ -173,13 +174,16 @@ class Runner:
                         f.write("  %s = (nondet_uchar() & 1);  /* a valid bool: 0 or 1 */\n" % dcl)
                     else:
                         f.write("  %s;\n" % dcl)
+                # optional: the contracts header may pin an argument to a constant (one unit per value) so that symbolic execution
+                # can propagate it; the harness locals carry the parameter names
+                f.write("#ifdef VERIF_HARNESS_SETUP\n  VERIF_HARNESS_SETUP();\n#endif\n")
                 f.write("  VERIF_GHOST_INIT();\n")
                 f.write("  %s(%s);\n  VERIF_CANARY();\n}\n" % (unit.target, ", ".join(fi["params"])))
         defs = list(unit.defines) + list(unit.quick_defines if self.tier == "quick" else unit.thorough_defines) + list(extra_defines)
         entry = "h_unit"
         cmd = ["goto-cc", "-I" + os.path.join(VERIF, "tools", "include"), "-I" + VERIF, "-I" + d,
                '-DVERIF_CONTRACTS="%s"' % os.path.join(VERIF, unit.contracts), "-DHARNESS=" + entry,
-               "-DVERIF_TIER_" + self.tier.upper()] + ["-D" + x for x in defs] + ["--function", entry, unit_c, "-o", os.path.join(d, "a.gb")]
+               "-DVERIF_TIER_" + self.tier.upper()] + ([] if unit.dfcc else ["-DVERIF_NO_DFCC=1"]) + ["-D" + x for x in defs] + ["--function", entry, unit_c, "-o", os.path.join(d, "a.gb")]
         rc, out, err, _ = run(cmd, timeout=300)
         if rc != 0:
             raise Undecided("goto-cc failed for %s: %s" % (tag, (out + err).strip()[-600:]))
@@ -189,7 +193,13 @@ class Runner:
         if unit.loop_contracts:
             cmd += ["--apply-loop-contracts"]
         cmd += [os.path.join(d, "a.gb"), os.path.join(d, "b.gb")]
-        rc, out, err, _ = run(cmd, timeout=600)
+        if unit.dfcc:
+            rc, out, err, _ = run(cmd, timeout=600)
+        else:
+            import shutil
+            shutil.copyfile(os.path.join(d, "a.gb"), os.path.join(d, "b.gb"))
+            rc, out, err = 0, "", ""
+            cmd = ["(no contract instrumentation: pre/postcondition assumed/asserted by the harness)", "", ""]
         gi_log = out + err
         if rc != 0:
             raise Undecided("goto-instrument failed for %s: %s" % (tag, gi_log.strip()[-800:]))
@@ -245,7 +255,8 @@ class Runner:
                 raise Undecided("no canary obligation in %s" % tag)
             if any(p["status"] != "FAILURE" for p in canary):
                 raise Undecided("vacuity: canary after the call is unreachable in %s (contradictory requires/assumptions)" % tag)
-        post = [p for p in oblig if "ensures clause" in p["description"] or ".postcondition" in p["property"]]
+        post = [p for p in oblig if "ensures clause" in p["description"] or ".postcondition" in p["property"] or
+                (not unit.dfcc and p["description"].startswith("postcondition"))]
         n_ens = 1 if unit.spec_target else self._count_ensures(unit, ctext)
         if n_ens and len(post) < 1:
             raise Undecided("no postcondition obligations generated for %s" % tag)
@@ -314,7 +325,7 @@ class Runner:
         seen_params = None
         import collections
         excerpt = collections.deque(maxlen=300)
-        wrapped = unit.target + "_wrapped_for_contract_checking"
+        wrapped = unit.target + ("_wrapped_for_contract_checking" if unit.dfcc else "")
         for st in trace:
             if st.get("stepType") == "function-call" and snap is None:
                 if st.get("function", {}).get("identifier") == wrapped:
